@@ -41,7 +41,8 @@ var c14Pool = []string{"a.co", "a.com.cn", "a.com", "b.com", "c.com", "d.com", "
 // c14NestPool (family 1): wildcard domains that are textual prefixes of one another below one parameter, so that
 // deletions re-join nodes along a chain, and a domain with non-ASCII letters.
 var c14NestPool = []string{"{sub}.a.com", "{sub}.a.com.cn", "{sub}.a.org", "{sub}.a.co", "\u00e9cole.com", "{sub}.\u00e9cole.com",
-	"{Sub:\\D+}.B.net"} // a name and a rule with capitals: only the text outside the braces is case-insensitive
+	"{Sub:\\D+}.B.net", // a name and a rule with capitals: only the text outside the braces is case-insensitive
+	"{sub:digit}.c.com", "{sub:digit}.c.org"} // two domains sharing a rule that RegisterInterceptor can turn from a regexp into an interceptor
 
 type c14Cfg struct {
 	Family int `json:"family"`
@@ -58,7 +59,7 @@ func c14AlphabetOf(family int) []hostOp {
 	for _, d := range c14NestPool {
 		ops = append(ops, hostOp{K: "del", D: d})
 	}
-	return append(ops, hostOp{K: "add", D: "\u00c9COLE.com"}, hostOp{K: "del", D: "\u00c9cole.COM"})
+	return append(ops, hostOp{K: "add", D: "\u00c9COLE.com"}, hostOp{K: "del", D: "\u00c9cole.COM"}, hostOp{K: "icpt"})
 }
 
 func c14PoolOf(family int) []string {
@@ -263,7 +264,8 @@ func c14HostsOf(family int) []string {
 		}
 	}
 	for _, s := range []string{"", "*", "zz.com", "digit.b.com", "x.b.com", ".a.com", "7.a.com:80", "x1.a.com.", "com", ":80", ":", "12.b.net", "xy.b.net", "XY.B.NET",
-		"\u212a.a.com:80", "\u212a\u212a\u212a.a.com:8080", "[\u212a.a.com]:80"} { // KELVIN SIGN: 3 bytes, lower-cases to the 1-byte k
+		"\u212a.a.com:80", "\u212a\u212a\u212a.a.com:8080", "[\u212a.a.com]:80",
+		"x1.a.com.y.a.com.cn", "x1.a.com.a.com.cn:80", "8.c.com", "digit.c.com", "8.c.org", "digit.c.org"} { // KELVIN SIGN: 3 bytes, lower-cases to the 1-byte k
 		add(s)
 	}
 	return out
